@@ -84,13 +84,15 @@ claim("C12",
 claim("C17",
       "Decides that every tokio::spawn in brush_core is registered as a job on all paths / joined in place / a reviewed detached spawn, "
       "that wait→wait_all→Job::wait→JobTask::wait is a chain of awaits inside loops whose only exit is exhaustion (no error exit leaves "
-      "early, awaited tasks are always removed, no link polls), and that job ids are not derived from the table length.",
+      "early, awaited tasks are always removed, no link polls), and that a new job's number is an upper bound of all live numbers (maximum "
+      "over the whole table or a growing counter) while jobs can leave the table from the middle.",
       "Trusted: rustc MIR; tokio JoinHandle semantics. Not decided: happens-before of job effects, output ordering, schedules.",
       ST + "forward taint + PAIR + loop-exit analysis + def-use", "DESIGN.md §3 C17")
 claim("C20",
       "Decides that an item written by History::flush is marked clean on every path back to the loop head, that the skip edge depends on "
       "the dirty flag, that imported items are constructed clean and new ones dirty, that the #epoch line precedes its command in the "
-      "same iteration under write_timestamps, and the reviewed (append, unsaved-only) modes of all flush callers.",
+      "same iteration under write_timestamps, the reviewed (append, unsaved-only) modes of all flush callers, and that any position cached "
+      "in a History field and used to select items is maintained by every method that replaces the item list.",
       "Trusted: rustc MIR; format literals recovered from macro call-site snippets. Not decided: file contents over all interleavings.",
       ST + "must-pass-through on MIR CFG, aggregate-constant inspection, who-may-call", "DESIGN.md §3 C20")
 
@@ -161,8 +163,9 @@ claim("C14",
       ST + "printer-table (MIR match arms) vs parser-table (peg source) comparison", "DESIGN.md §3 C14")
 claim("C15",
       "Decides that every parameter of each of the six memoised functions flows into the key of cache_get and cache_set, that workspace "
-      "key component types derive Hash/PartialEq/Eq, and that the memoised computations (966 reachable bodies) read no mutable static, "
-      "thread-local or ambient-state API.",
+      "key component types derive Hash/PartialEq/Eq, that the memoised computations (966 reachable bodies) read no mutable static, "
+      "thread-local or ambient-state API, and that every parse inside the stdin completeness decision is given the accumulated input or "
+      "a prefix of it (never a tail or a single line, whose tokenizer context would be lost).",
       "Trusted: rustc MIR; cached::SizedCache key semantics. Not decided: equality of outputs across delivery modes, $LINENO, the "
       "complete/incomplete classification.",
       ST + "backward taint to memo keys, derive inspection, call-graph purity closure", "DESIGN.md §3 C15")
